@@ -2,6 +2,7 @@
 from __future__ import annotations
 
 import ast
+import re
 from typing import Dict, List
 
 from ..core import AnalysisError, CheckResult, Finding, Repo, norm
@@ -110,19 +111,19 @@ def ctor_sibling(repo: Repo, res: CheckResult) -> None:
         if loop is None:
             raise AnalysisError(f"{fn.name}: no loop over params")
         rows = []
+        pv = norm(loop.target)      # the loop variable that stands for the parameter
         for st in loop.body:
             if isinstance(st, ast.If) and "ParamKind" in norm(st.test):
                 cur = st
                 while True:
-                    t = norm(cur.test)
-                    act = "kw" if any("KeywordArg" in norm(x) or "=" in norm(x) and "constructor_builder" in norm(x) and "{param.name}" in norm(x)
-                                      or "param.name" in norm(x) for x in cur.body) else (
+                    t = re.sub(r"\b\w*has_skipped\w*\b", "HAS_SKIPPED", norm(cur.test).replace(pv, "PARAM"))
+                    act = "kw" if any("KeywordArg" in norm(x) or f"{pv}.name" in norm(x) for x in cur.body) else (
                         "raise" if any(isinstance(x, ast.Raise) for x in cur.body) else "pos")
                     rows.append(f"{t} -> {act}")
                     if len(cur.orelse) == 1 and isinstance(cur.orelse[0], ast.If):
                         cur = cur.orelse[0]
                     else:
-                        act = "kw" if any("param.name" in norm(x) for x in cur.orelse) else "pos"
+                        act = "kw" if any(f"{pv}.name" in norm(x) for x in cur.orelse) else "pos"
                         rows.append(f"else -> {act}")
                         break
         return rows
